@@ -145,6 +145,12 @@ def check_placement(case):
                 ties += 1
     if ties:
         labels.append("tie")
+    if case.get("real_ties"):
+        for k in case.get("extra_keys", ()):
+            sc = sorted((refhash.murmur3(("%s-%s" % (x, k)).encode("latin-1"), hseed) for x in nodes), reverse=True)
+            if len(sc) > 1 and sc[0] == sc[1]:
+                labels.append("genuine-tie-at-the-top")
+                break
     # purity: same answer when asked again, and the rotation is not modified by lookups
     for k in keys[:50]:
         if base.get_node(k) != exp[k]:
@@ -198,12 +204,12 @@ def check_placement(case):
             got = r.get_node(k)
             want = _ref_place(cur, k, hname, hseed) if cur else None
             if cur and want is None:
-                want = _build(sorted(cur), hname, hseed).get_node(k)
+                want = _build(sorted(cur, key=lambda x_: (str(type(x_)), str(x_))), hname, hseed).get_node(k)
             if got != want:
                 fail(["history-lookup"], "after history prefix ending in %r (set %r) %r is placed on %r, the rule gives %r"
                      % ((op, idx), cur, k, got, want))
     if cur:
-        fresh = _build(sorted(cur), hname, hseed)
+        fresh = _build(sorted(cur, key=lambda x_: (str(type(x_)), str(x_))), hname, hseed)
         for k in sub:
             if r.get_node(k) != fresh.get_node(k):
                 fail(["history"], "after history %r node set %r places %r on %r, a fresh hasher on %r"
@@ -321,6 +327,33 @@ def spread_cases(tier, seed):
         yield {"nodes": nodes, "hash": "murmur", "hseed": 0, "kseed": seed * 1000 + i,
                "nkeys": 2000 if tier == "quick" else 5000, "extra_keys": extreme, "history": [[0, 0], [0, 1], [1, 0], [0, 0]],
                "spread": True}
+
+
+def node_object_cases(tier, seed):
+    """RendezvousHash takes any objects as nodes (the repository's own tests use ints): shard numbers from 0, an empty name, 0.0,
+    False - a node is a node whatever its truth value"""
+    sets = [[0, 1, 2], [2, 1, 0], [0], [0, 7], ["", "a", "b"], ["b", "", "a"], [0.0, 1.5, "n"], [False, True], [0, "", "x"], [3, 0, "00"]]
+    for i, nodes in enumerate(sets):
+        # (the built-in hash only: with a hash function that ties, the library answers with the winner's *name* - str(node) -,
+        # which for nodes that are strings is the node and for other objects is not; HashClient only ever uses strings)
+        for hname in ("murmur",):
+            yield {"nodes": nodes, "hash": hname, "hseed": (0, 7)[i % 2], "kseed": seed * 100 + i, "nkeys": 300 if tier == "quick" else 1500, "extra_keys": [],
+                   "history": [[0, 0], [0, 1], [1, 0], [0, 0], [1, 1], [0, 1]]}
+
+
+def real_tie_cases(tier, seed):
+    """two nodes whose scores for a key are EQUAL under the built-in hash (a genuine collision, each score computed on its own; the
+    second node's name is solved for: refhash.tie_node): the published rule gives the key to the greater name, in every order"""
+    reps = 12 if tier == "quick" else 120
+    for i in range(reps):
+        a = NAME_POOL[(i * 5 + seed) % len(NAME_POOL)]
+        keys = ["user:%d" % (i + seed), "k%d" % (i * 31 + seed), "session/%d/%s" % (i, "x" * (i % 7))]
+        stems = ("zz", "aa", "10.9.0.", "Cache-")
+        ties = [refhash.tie_node(str(a), k, stems[(i + j) % len(stems)]) for j, k in enumerate(keys)]
+        for nodes in ([a, ties[0]], [ties[0], a], [a] + ties, ties[::-1] + [a], [a, ties[1], NAME_POOL[(i * 5 + seed + 1) % len(NAME_POOL)]]):
+            nodes = list(dict.fromkeys(nodes))
+            yield {"nodes": nodes, "hash": "murmur", "hseed": 0, "kseed": seed * 77 + i, "nkeys": 40, "extra_keys": keys,
+                   "history": [[0, 0], [0, 1], [1, 0], [0, 0], [1, 1], [0, 1]], "real_ties": True}
 
 
 # ---- spellings -------------------------------------------------------------
@@ -672,6 +705,8 @@ PARTS = [
     Part("placement", "hyp", check_placement, strategy=placement_strategy,
          examples={"quick": 50, "thorough": 500}, shards={"quick": 8, "thorough": 16}),
     Part("rings-side-by-side", "enum", check_multi_ring, cases=multi_ring_cases, shards={"quick": 2, "thorough": 8}),
+    Part("genuine-score-ties", "enum", check_placement, cases=real_tie_cases, shards={"quick": 2, "thorough": 8}),
+    Part("nodes-of-any-type", "enum", check_placement, cases=node_object_cases, shards={"quick": 2, "thorough": 4}),
     Part("spread", "enum", check_placement, cases=spread_cases, shards={"quick": 3, "thorough": 16}),
     Part("spellings", "enum", check_spelling, cases=spelling_cases, shards={"quick": 2, "thorough": 4}, exhaustive=True),
     Part("cross-process", "enum", check_xproc, cases=xproc_cases, shards={"quick": 2, "thorough": 4}),
